@@ -161,22 +161,38 @@ OP_CLAUSE = {"sort": "sort-ascending-order", "remove": "remove-keeps-others-in-o
 # calling the library
 
 
-def call(obs, ts, op, src, in_order, out_order, out_file, site_override=None):
-    """One real call.  src: array in `in_order` or path.  -> list of returned arrays (as returned)."""
+def call(obs, ts, op, src, in_order, out_order, out_file, site_override=None, args=None):
+    """One real call.  src: array in `in_order` or path.  -> list of returned arrays (as returned).
+
+    args: a dict that lives as long as the case.  The caller's own angle / index list or array is built once and the SAME
+    object is handed to every call of the case (baseline, variant, second flip ...), as a user script would do, and
+    it must come back unchanged ("argument-untouched")."""
     kind = op[0]
+    if args is None:
+        args = {}
     site = site_override or SITE[kind]
     kw = {"input_order": in_order, "output_order": out_order}
     if kind == "sort":
         ang = op[1]
-        a = np.array(ang, dtype=np.float64) if op[2] == "array" else (list(ang) if op[2] == "list" else op[2])
+        if "a" not in args:
+            args["a"] = np.array(ang, dtype=np.float64) if op[2] == "array" else (list(ang) if op[2] == "list" else op[2])
+        a = args["a"]
         with quiet():
             r = obs.lib(site, ts.sort_tilts_by_angle, src, a, output_file=out_file, **kw)
+        if not isinstance(a, str):
+            obs.check(list(np.asarray(a, dtype=float)) == [float(v) for v in ang], site, "argument-untouched",
+                      lambda: f"the caller's angle {type(a).__name__} was modified in place: {list(ang)} -> {list(a)}")
         return [r]
     if kind == "remove":
         idx = op[1]
-        a = np.array(idx) if op[3] == "array" else (list(idx) if op[3] == "list" else op[3])
+        if "a" not in args:
+            args["a"] = np.array(idx) if op[3] == "array" else (list(idx) if op[3] == "list" else op[3])
+        a = args["a"]
         with quiet():
             r = obs.lib(site, ts.remove_tilts, src, a, numbered_from_1=op[2], output_file=out_file, **kw)
+        if not isinstance(a, str):
+            obs.check([int(v) for v in a] == [int(v) for v in idx], site, "argument-untouched",
+                      lambda: f"the caller's index {type(a).__name__} was modified in place: {list(idx)} -> {list(a)}")
         return [r]
     if kind == "split":
         prefix = out_file[:-4] if out_file else None
@@ -283,7 +299,8 @@ def exec_depth1(case, obs):
     vcls = f"src={src_kind},in={in_order},out={out_order}"
 
     # ---- baseline variant against the model
-    base = [np.asarray(r) for r in call(obs, ts, op, S, "zyx", "zyx", None)]
+    shared_args = {}
+    base = [np.asarray(r) for r in call(obs, ts, op, S, "zyx", "zyx", None, args=shared_args)]
     if kind == "flip":
         amap = flip_axis_map(obs, ts, dtype)
         if amap is None:
@@ -326,7 +343,7 @@ def exec_depth1(case, obs):
         src = np.ascontiguousarray(S.transpose(2, 1, 0)) if in_order == "xyz" else S
         src_keep = src.copy()
     out_file = "c15_out.mrc" if with_file else None
-    res = call(obs, ts, op, src, in_order, out_order, out_file)
+    res = call(obs, ts, op, src, in_order, out_order, out_file, args=shared_args)
     if src_kind == "file":
         with open("c15_in.mrc", "rb") as f:
             obs.check(f.read() == in_bytes, site, "input-untouched", "the input file was modified", cls="file")
